@@ -443,6 +443,50 @@ Proof.
 Qed.
 Print Assumptions C18_refines_memory_store_fresh.
 
+(* I/O errors inside a save (error paths of saveFile and ioutil.Ingest): whichever
+   system call fails -- a mkdir at any level, the temp-file creation, chmod, any
+   write, close or the rename -- after the clean-up the code performs the config
+   path and every other file are untouched and no ingest file stays behind *)
+Theorem C18_failed_save_harmless :
+  forall (chain : list path) (p t : path) (chunks : list str),
+    t <> p -> forall s fp,
+    fget t s = None ->
+    let s' := exec_all s (failed_save_steps chain p t chunks fp) in
+    fget p s' = fget p s /\
+    (forall q, q <> t -> fget q s' = fget q s) /\
+    fget t s' = None.
+Proof. exact failed_save_harmless. Qed.
+Print Assumptions C18_failed_save_harmless.
+
+(* ... and the operation is invisible: it reports the error and the store (memory
+   and file) is exactly as before; operations that do not save cannot fail *)
+Theorem C18_failed_op_invisible :
+  forall (enc : str -> str) (dec : str -> option str) st o,
+    (saves st o = true -> step_io enc dec true st o = (st, RErrIO)) /\
+    (forall io, io = false \/ saves st o = false -> step_io enc dec io st o = step enc dec st o).
+Proof. intros enc dec st o. split; [exact (step_io_failed enc dec st o)|intro io; exact (step_io_unaffected enc dec io st o)]. Qed.
+Print Assumptions C18_failed_op_invisible.
+
+(* the two defects fixed on the repository branch, as witnesses about the pre-fix
+   variants of the model: the ingest file survived a failing chmod / write, and a
+   failed Put stayed visible in memory *)
+Theorem C18_failed_save_leak_refuted :
+  forall (chain : list path) (p t : path) (chunks : list str) s,
+    fget t s = None ->
+    fget t (exec_all s (failed_save_steps_prefix chain p t chunks FChmod)) <> None /\
+    forall j, fget t (exec_all s (failed_save_steps_prefix chain p t chunks (FWrite j))) <> None.
+Proof. exact failed_save_prefix_leaks. Qed.
+Print Assumptions C18_failed_save_leak_refuted.
+
+Theorem C18_failed_op_visible_refuted :
+  forall (enc : str -> str) (dec : str -> option str),
+    exists st o a,
+      snd (step_io_prefix enc dec true st o) = RErrIO /\
+      get_candidates dec (cache_of (fst (step_io_prefix enc dec true st o))) a <>
+      get_candidates dec (cache_of st) a.
+Proof. exact step_io_prefix_visible. Qed.
+Print Assumptions C18_failed_op_visible_refuted.
+
 (* the defect this check found (fixed on the repository branch): before the fix
    a config file holding the JSON value null made the first save panic *)
 Theorem C18_null_document_refuted :
